@@ -137,6 +137,7 @@ def run(facts, tier):
                       c01.ORDERED_CHOICE_REASONS)
     c10_5(facts, res)
     c10_6(facts, res)
+    c10_7(facts, res)
     res.functions_analysed = 8
     return res
 
@@ -164,6 +165,48 @@ def c10_6(facts, res):
                             "names only" % f["path"], f["file"], calls[0].get("ln"), {}))
     if st["instances"] < 2:
         raise BrokenCheck("C10-6: %d callers of Context::expanded_name (floor 2)" % st["instances"])
+
+
+def _default_key(node):
+    """Literal that stands for `no prefix` where an Option<&str> prefix is turned into a lookup key."""
+    for m in walk(node):
+        if m.get("k") == "MethodCall" and m["m"] in ("unwrap_or", "unwrap_or_default") and \
+                any(x.get("k") == "MethodCall" and x["m"] == "prefix" for x in walk(m.get("recv", {}))):
+            if m["m"] == "unwrap_or_default":
+                return ""
+            a = m["args"][0] if m.get("args") else {}
+            if a.get("k") == "Lit":
+                return a.get("v")
+            return None
+    return None
+
+
+def c10_7(facts, res):
+    """The information set looks namespaces up by a string key; the unprefixed case has to use one key on both sides:
+    Element::namespace_name turns `no prefix` into a key, find_nameapce_uri turns the prefix-less in-scope binding into a
+    key - if the two literals differ an inherited default namespace is never found.  An own declaration xmlns="" must not be
+    answered as a namespace name (it undeclares)."""
+    st = res.rule("C10-7", instances=2)
+    caller = facts.fn("xml_info::<XmlElement as Element>::namespace_name")
+    finder = facts.fn("xml_info::XmlElement::find_nameapce_uri")
+    k1 = _default_key(caller["body"])
+    k2 = _default_key(finder["body"])
+    if k1 is None:
+        raise BrokenCheck("C10-7: Element::namespace_name no longer maps a missing prefix to a literal key; shape not recognised")
+    ok = k1 == k2
+    res.oblige(1, ok)
+    res.sample({"rule": "C10-7", "key_of_unprefixed_element": k1, "key_of_prefixless_binding": k2}, limit=40)
+    if not ok:
+        res.add(Finding("C10-7", "default-key", "Element::namespace_name looks an unprefixed element up with the key %r, find_nameapce_uri files the "
+                        "in-scope default namespace under %r: an inherited default namespace is not found and the element is "
+                        "reported in no namespace" % (k1, k2), finder["file"], finder["line"], {}))
+    # own xmlns="" is filtered
+    empties = [m for m in walk(finder["body"]) if m.get("k") == "MethodCall" and m["m"] == "is_empty"]
+    res.oblige(1, bool(empties))
+    if not empties:
+        res.add(Finding("C10-7", "empty-own-declaration", "find_nameapce_uri answers the value of the element's own namespace declaration without "
+                        "testing it for emptiness: xmlns=\"\" is reported as the namespace name \"\" instead of no namespace",
+                        finder["file"], finder["line"], {}))
 
 
 def _on_field(n, field):
